@@ -649,7 +649,24 @@ pub fn replay(path: &str) -> i32 {
     }
     std::fs::write(dir.join("replay.json"), &bytes).unwrap();
     let exe = std::env::current_exe().unwrap();
-    let status = Command::new(exe).arg("replay-worker").arg(&dir).status();
+    // a replay of a hang must not hang the caller: 120 s of wall clock, then the worker is killed
+    let status = match Command::new(exe).arg("replay-worker").arg(&dir).spawn() {
+        Ok(mut child) => {
+            let started = Instant::now();
+            loop {
+                match child.try_wait() {
+                    Ok(Some(s)) => break Ok(s),
+                    Ok(None) if started.elapsed() > Duration::from_secs(120) => {
+                        let _ = child.kill();
+                        break child.wait();
+                    }
+                    Ok(None) => std::thread::sleep(Duration::from_millis(20)),
+                    Err(e) => break Err(e),
+                }
+            }
+        }
+        Err(e) => Err(e),
+    };
     let result = std::fs::read(dir.join("result.json")).ok().and_then(|b| serde_json::from_slice::<Vec<Violation>>(&b).ok());
     let _ = std::fs::remove_dir_all(&dir);
     match (status, result) {
